@@ -545,7 +545,7 @@ def lean_obligations(pid, module, evidence, violations):
                                    [n for n, _ in thms if not (axmap.get(n) is not None and set(axmap[n]) <= ALLOWED_AXIOMS)] + bad_src)))
     return ok, len(thms), discharged
 
-STATIC_HALF = {"C04", "C07", "C13", "C17"}
+STATIC_HALF = {"C01", "C04", "C07", "C13", "C17"}
 MIRI_PROPS = {"C02", "C05", "C11"}
 
 def run_miri_sample(families, tier, seed, key, n_t2=30, n_t1=60):
